@@ -167,7 +167,7 @@ func compareWithModel(driver string, hr *historyResult) (int, string, string, er
 
 func compareWithModelOrd(driver string, hr *historyResult, ord int) (int, string, string, error) {
 	var in bytes.Buffer
-	fmt.Fprintf(&in, "gw-begin %d %d 1 %d\n", hr.RefThr, hr.RstThr, ord)
+	fmt.Fprintf(&in, "gw-begin %d %d 1 %d %s\n", hr.RefThr, hr.RstThr, ord, b2s(hr.Flat))
 	var idx []int
 	for i, s := range hr.Steps {
 		if strings.HasPrefix(s.Stim, "#") {
@@ -192,8 +192,9 @@ func compareWithModelOrd(driver string, hr *historyResult, ord int) (int, string
 	}
 	for k, i := range idx {
 		want := hr.Steps[i].modelLine()
-		if lines[k+1] != want {
-			return i, want, lines[k+1], nil
+		got := canonModelLine(lines[k+1])
+		if got != want {
+			return i, want, got, nil
 		}
 	}
 	return -1, "", "", nil
